@@ -322,6 +322,7 @@ class ParseContext:
 
     name = fn_or_cls_name
     import_source = self._import_source(source, attr_names)
+    allowlist = denylist = None
     original = _inverse_lookup(fn_or_cls)
     if original is not None:
       # We're re-registering something (a class, one of whose methods is being
@@ -330,6 +331,8 @@ class ParseContext:
       name = original.name
       module = original.module
       import_source = original.import_source
+      allowlist = original.allowlist
+      denylist = original.denylist
     elif (inspect.isfunction(fn_or_cls) and path_attrs and
           inspect.isclass(path_attrs[-1])):  # pytype: disable=not-supported-yet
       enclosing = _inverse_lookup(path_attrs[-1])
@@ -341,6 +344,8 @@ class ParseContext:
         fn_or_cls,
         name=name,
         module=module,
+        allowlist=allowlist,
+        denylist=denylist,
         import_source=import_source,
         avoid_class_mutation=True)
     if original is not None:
